@@ -63,6 +63,8 @@ func (r *btreeRunner) Do(op []string) string {
 		return b2s(r.t.IsEmpty())
 	case "height":
 		return itoa(r.t.Height())
+	case "shape":
+		return btreeShape(r.t)
 	case "traverse":
 		var items []string
 		r.t.Traverse(func(k, v int) {
@@ -261,7 +263,7 @@ func genC10(g *Gen) {
 	for k := 0; k <= 5; k++ {
 		muts = append(muts, "put "+itoa(k)+" V", "remove "+itoa(k))
 	}
-	obs := []string{"size", "isempty", "height", "traverse", "get 0", "get 1", "get 2", "get 3", "get 4", "get 5"}
+	obs := []string{"size", "isempty", "height", "shape", "traverse", "get 0", "get 1", "get 2", "get 3", "get 4", "get 5"}
 	maxLen := 4
 	if g.Thorough() {
 		maxLen = 6
@@ -295,10 +297,10 @@ func genC10(g *Gen) {
 			}
 			ops = append(ops, "put "+itoa(k)+" "+itoa(r.Intn(1000)))
 			if r.Intn(10) == 0 {
-				ops = append(ops, "height", "size")
+				ops = append(ops, "height", "size", "shape")
 			}
 		}
-		ops = append(ops, "size", "height", "traverse")
+		ops = append(ops, "size", "height", "shape", "traverse")
 		length := r.Range(5, 150)
 		for j := 0; j < length; j++ {
 			p := r.Intn(100)
@@ -316,8 +318,28 @@ func genC10(g *Gen) {
 				ops = append(ops, "traverse")
 			}
 		}
-		ops = append(ops, "size", "height", "traverse")
+		ops = append(ops, "size", "height", "shape", "traverse")
 		g.Emit("btree", nil, ops)
+	}
+	// adversarial insertion orders found by a greedy search on the real code (shape hook): sparse trees
+	sizes := []int{24}
+	if g.Thorough() {
+		sizes = []int{16, 24, 40, 64}
+	}
+	for _, sz := range sizes {
+		for variant := 0; variant < 3; variant++ {
+			if !g.Mine() {
+				continue
+			}
+			var ops []string
+			for _, k := range btreeAdversary(sz, variant) {
+				ops = append(ops, "put "+itoa(k)+" "+itoa(k), "height", "size")
+			}
+			if len(ops) > 0 {
+				ops = append(ops, "shape", "traverse")
+				g.Emit("btree", nil, ops)
+			}
+		}
 	}
 }
 
